@@ -77,6 +77,7 @@ class Profile:
         split_init=0,
         loop_local_pct=0,
         dup_args_pct=0,
+        nonfinite_args=False,
     ):
         self.__dict__.update(locals())
         del self.__dict__["self"]
@@ -1182,7 +1183,12 @@ def arg_strategy(fn, profile=FULL):
         elif fn.get("tailrec") and i == 0:
             parts.append(st.integers(-1, 4))
         elif is_float(ty):
-            parts.append(float_consts(ty, False).map(fhex))
+            fs = float_consts(ty, profile.nonfinite_args)
+            if profile.nonfinite_args:
+                # one argument in five is NaN / an infinity / -0.0: float compares and conversions on them are where
+                # translations of conditions go wrong
+                fs = st.one_of(fs, fs, fs, fs, st.sampled_from([float("nan"), float("inf"), float("-inf"), -0.0]))
+            parts.append(fs.map(fhex))
         else:
             parts.append(int_consts(ty))
     return st.tuples(*parts).map(list)
